@@ -139,6 +139,29 @@ pub fn frames() -> Vec<Vec<u8>> {
             }
         }
     }
+    // STREAM / CRYPTO at the top of the offset range, written as raw bytes (the crate's own
+    // writers need not be able to produce them): offset 2^62-1-k, k = 0..3, 0..3 data bytes,
+    // every flag combination with the OFF bit; the sums that exceed 2^62-1 must be refused
+    for k in 0..4u64 {
+        let off = (((1u64 << 62) - 1 - k) | (0b11 << 62)).to_be_bytes();
+        for n in 0..4usize {
+            let data = &[0xaa, 0xbb, 0xcc][..n.min(3)];
+            for ty in [0x0cu8, 0x0d, 0x0e, 0x0f] {
+                let mut e = vec![ty, 0x00];
+                e.extend_from_slice(&off);
+                if ty & 0x02 != 0 {
+                    e.push(data.len() as u8);
+                }
+                e.extend_from_slice(data);
+                out.push(e);
+            }
+            let mut e = vec![0x06];
+            e.extend_from_slice(&off);
+            e.push(data.len() as u8);
+            e.extend_from_slice(data);
+            out.push(e);
+        }
+    }
     // NEW_CONNECTION_ID (the writer takes a random reset token: overwrite it)
     for (n, seq, rpt) in [(1usize, 1u64, 0u64), (8, 64, 64), (20, 16384, 1)] {
         let mut e = one(&NewConnectionIdFrame::new(cid(n), v(seq), v(rpt)));
